@@ -152,6 +152,7 @@ fn run_u_pair(ctx: &mut Ctx, depth: usize) {
     squitterator::set_observer_coords_from_str(rowmodel::OBSERVER_STR);
     explore(ctx, &model, |aux, _pre, a, _post| apply(&cu, aux, a).1, |ctx, st| {
         ctx.count("U-pair-step");
+        ctx.outcome(&(st.action.name.as_str(), st.pre != st.post));
         if st.pre != st.post {
             ctx.count("U-pair-step:state-changed");
         }
